@@ -169,6 +169,19 @@ def generate(rng, quick):
                        big=rng.random() < 0.1)
         finals = rng.choice([(EOF,), (EOF,), (TIMED_OUT,), (OTHER,)])
         add("fr_accept", s, DEFAULT_MAX, finals=finals)
+    # real FSimpleServer on TCP; the peer keeps its end open after the stream
+    for i in range(24 if quick else 300):
+        s = gen_stream(rng, DEFAULT_MAX,
+                       lambda r: (b"\xee" if r.random() < 0.2 else b"") + rand_body(r, r.randrange(0, 30)))
+        if len(s) > 4000:
+            continue
+        ch = chunkings(rng, s, 3)[rng.randrange(3)]
+        if not ch:
+            ch = []
+        q = {"rx": "fr_server", "chunks": [c.hex() for c in ch], "n": 250}
+        group += 1
+        reqs.append((q, {"kind": "fr_server", "stream": s, "chunks": ch, "maxlen": DEFAULT_MAX, "final": TIMED_OUT,
+                         "group": group, "which": None, "reads": None}))
     return reqs
 
 
@@ -252,10 +265,28 @@ def run(ctx):
                 if of != exp or r.get("end") != end:
                     bad("accept handed the processor other frames, or ended differently, than the stream says",
                         q, m, r, expected_frames=[f.hex() for f in exp], expected_end=end)
+                elif r.get("closed") != 1:
+                    bad("the server stopped serving the connection without closing it", q, m, r)
+        elif kind == "fr_server":
+            of = [bytes.fromhex(x) for x in r.get("frames") or []]
+            exp, stopped = [], fail == "over"
+            for f in frames:
+                exp.append(f)
+                if f[:1] == b"\xee":
+                    stopped = True
+                    break
+            if of != exp:
+                bad("the server processed other frames than the stream holds", q, m, r,
+                    expected_frames=[f.hex() for f in exp])
+            elif stopped and r.get("closed") != 1:
+                bad("the server stopped serving the connection (frame over the limit / processor error) "
+                    "but left it open: the peer is neither answered nor disconnected", q, m, r)
+            elif not stopped and r.get("closed") != 0:
+                bad("the server closed a connection whose stream is well-formed so far", q, m, r)
         elif kind == "fr_adapter":
             if r.get("closed") != 1:
                 bad("connection neither closed nor reported after the stream ended", q, m, r)
-        if kind != "fr_read":      # a single Read may legitimately return fewer bytes when the chunks are smaller
+        if kind not in ("fr_read", "fr_server"):      # a single Read may legitimately return fewer bytes when the chunks are smaller
             by_group.setdefault((m["group"], m["final"]), []).append((q, m, r))
     for (g, final), lst in by_group.items():
         keys = {observation_key(m["kind"], r) for _, m, r in lst}
@@ -275,6 +306,8 @@ def run(ctx):
                           r.get("end", -1)])
         elif m["kind"] == "fr_adapter":
             cases.append([22, ch, m["final"], r.get("calls", -1), r.get("end", -1)])
+        elif m["kind"] == "fr_server":
+            cases.append([24, ch, r.get("closed", -1), [bytes.fromhex(x) for x in r.get("frames") or []]])
         else:
             cases.append([23, m["maxlen"], ch, m["final"], [bytes.fromhex(x) for x in r.get("frames") or []],
                           r.get("end", -1)])
